@@ -89,7 +89,7 @@ def run_job(job):
     workload = make_workload(job["wl"])
     adm, _l, _ = reference_outcomes(w, workload)
     eng = CrashEngine(w, workload, schedule=job["schedule"])
-    base_final, base_ledger, snaps = eng.baseline()
+    base_final, base_ledger, snaps = eng.baseline(record_start=True)
     if dumps(base_final.view.outcome()) not in adm:
         # the crash-free run under this baseline schedule already differs from the in-order run: that is
         # C02's subject (reordering), not a crash effect; this baseline cannot serve as a C01 reference
